@@ -223,6 +223,10 @@ class Slice(object):
     def _run_negative_islice(self, flow):
         from collections import deque
         start, stop, step = self._start, self._stop, self._step
+        # the flow is read in several loops one after another:
+        # a container (list, tuple, deque) would be read
+        # from its beginning in each of them
+        flow = iter(flow)
 
         def fill_deque(flow, maxlen):
             # Fill a deque with exactly maxlen values from *flow*
